@@ -549,6 +549,8 @@ func matchFilter(filter Filter, value interface{}) (bool, interface{}, error) {
 				return true, value, nil
 			}
 		}
+		// none of the elements match (const and pattern below apply to single values)
+		return false, nil, nil
 	default:
 		// object not supported for now
 		return false, nil, ErrUnsupportedFilter
